@@ -243,6 +243,11 @@ def o_estimator_history(case):
             return 'output-aliases:' + cls, 'call %d: result shares memory with an input / the reference / an ' \
                 'earlier result' % i
         kept.append((yv, snap, out, np.array(out, copy=True), i))
+        # R11: read-only accessors between the calls must not change anything (checked against obs0 below)
+        _ = (est.ue_ref_seq, getattr(est, 'cover_code', None), repr(est), ue.seq_array(), ue.size, ue.shape,
+             ue.normalized, repr(ue))
+        if not obs_equal(est_observables(est), obs0):
+            return 'query-changed-state:' + kind, 'read-only accessors after call %d changed the estimator' % i
     for yv, snap, out, cp, i in kept:
         if snap.changed():
             return 'input-modified-later:' + kind, 'input of call %d changed by a later call' % i
@@ -725,12 +730,12 @@ def corr_ls_variants(ctx, drv, n):
     for _ in range(n):
         case, cls = gen_ls_variant(ctx.rng)
         hs, ss, var = b.ls_arrays(case)
-        real = np.dtype(var.get('dtype') or 'complex128').kind != 'c'
+        real = b.ls_is_real(var)
         h = hs[0].real + 0j if real else hs[0]
         s_ = ss[0].real + 0j if real else ss[0]
         y = h @ s_
         # logical values after the cast the variant performs (float32/complex64 round the scaled values)
-        ya, sa = b.ls_cast(y, var), b.ls_cast(s_, var)
+        ya, sa = b.ls_cast(y, var, 'y'), b.ls_cast(s_, var, 's')
         yl, sl = np.asarray(ya).astype(complex), np.asarray(sa).astype(complex)
         lines.append('ls nr=%d nt=%d np=%d Y=%s S=%s' % (
             yl.shape[0], sl.shape[0], sl.shape[1],
@@ -751,7 +756,7 @@ def corr_ls_variants(ctx, drv, n):
         rows = mo[len('inv-ok '):].split('|')
         mv = np.array([[complex(Fraction(t.split(':')[0]), Fraction(t.split(':')[1])) for t in r.split(',')]
                        for r in rows])
-        narrow = (var_dtype(case) in ('complex64', 'float32'))
+        narrow = b.ls_is_narrow(case.get('variant') or {})
         ok, d, mag = rel_close(res, mv, 2e-2 if narrow else 1e-8)
         ctx.corr('compute_ls_estimation:variant', case, 'close' if ok else 'maxdiff=%.3e magnitude=%.3e dtype=%s' % (
             d, mag, res.dtype), 'close')
